@@ -1,17 +1,33 @@
 /-
   Model of the schema-level state that survives a validation / decoding / encoding call
-  (property C10), and of how a call reads and writes it:
+  (property C10), and of how a call reads and writes it.  Port of the code as it is NOW
+  (after 962be1e / ee393a6 / 52f30cd):
 
-    xmlschema/validators/elements.py:672-684   `XsdElement.xsi_types` and the widening of
-                                               `XsdIdentity.elements` for the *enabled* counters
-    xmlschema/validators/identities.py:213-246 `update_elements` (idempotent additions)
-    xmlschema/validators/elements.py:880-900   `selected_by` / `identity.elements` gate of
-                                               `collect_key_fields`
-    xmlschema/caching.py:31-87                 per-schema lru caches of pure methods
+    xmlschema/validators/elements.py:641-645   entering an element: the counters of its identity
+                                               constraints are reset (enabled) or created, in
+                                               `context.identities` (a dict: insertion order)
+    xmlschema/validators/elements.py:663-697   a usable `xsi:type`: for every counter of the context,
+                                               in order, `if not counter.enabled or (type, identity)
+                                               in self.xsi_types: continue`; `update_elements`;
+                                               `xsi_types.add((type, identity))`; at the end
+                                               `xsi_types.add(type)` if absent
+    xmlschema/validators/identities.py:213-246 `update_elements`: for every selected declaration
+                                               `if e not in self.elements: self.elements[e] = …`
+                                               then `e.selected_by.add(self)`
+    xmlschema/validators/elements.py:859-860,
+                                     907-914   `if self.selected_by: collect_key_fields`: fields are
+                                               collected for the identities of `selected_by` whose
+                                               counter is in the context and enabled
+    xmlschema/validators/elements.py:873-891   leaving an element: its counters are disabled; a keyref
+                                               whose referenced key has no counter gets a disabled one
+    xmlschema/caching.py:31-87                 per-schema lru caches of pure methods; cached properties
     xmlschema/validators/schemas.py:909-915,
     xmlschema/validators/simple_types.py:465-483  the per-schema scratch `validation_context`
                                                (`clear()` before every use)
     xmlschema/validators/validation.py:133-177 everything else lives in a context created per call
+
+  The state of a call is a pair: the RESIDUE `Res` (what stays on the schema object) and the
+  call-local `Ctx` (`context.identities` with the `enabled` flags), which starts empty at every call.
 
   No Mathlib import: linked into the native driver `drv_c10`.
 -/
@@ -21,30 +37,119 @@ abbrev Decl := Nat
 abbrev TyId := Nat
 abbrev Con := Nat
 
-/-- what is fixed once the schema is built -/
+/-- what is fixed once the schema is built (finite tables, read from the built components) -/
 structure Sch where
-  complex : TyId → Bool                      -- `xsd_type.has_complex_content()`
-  widen : Con → Decl → TyId → List Decl      -- declarations `update_elements(XPathElement(d, T))` adds
-  base : Con → List Decl                     -- `identity.elements` after `build()`
-  pure : Nat → Nat                           -- the memoised methods, as one pure function of the key
+  complex : List TyId                               -- types with `has_complex_content()`
+  wtab : List ((Con × Decl × TyId) × List Decl)     -- declarations `update_elements(XPathElement(d, T))` selects
+  base : List (Con × Decl)                          -- `selected_by` / `identity.elements` after `build()`
+  pure : Nat → Nat                                  -- the memoised methods, as one pure function of the key
+
+def Sch.isComplex (sch : Sch) (t : TyId) : Bool := sch.complex.contains t
+
+def Sch.widen (sch : Sch) (c : Con) (d : Decl) (t : TyId) : List Decl :=
+  (sch.wtab.filter fun e => e.1 == (c, d, t)).flatMap (·.2)
+
+/-- an entry of the set `XsdElement.xsi_types` (shared between a declaration and its references) -/
+inductive XsiEntry where
+  | type (d : Decl) (t : TyId)
+  | pair (d : Decl) (t : TyId) (c : Con)
+  deriving Repr, Inhabited, DecidableEq
 
 /-- the residue -/
 structure Res where
-  xsi : List (Decl × TyId)                   -- (element declaration, type) ∈ `xsi_types`
-  bound : List (Con × Decl)                  -- additions to `identity.elements`
-  memo : List (Nat × Nat)                    -- lru cache entries
-  scratch : List Nat                         -- what the last user left in the scratch context
+  xsi : List XsiEntry                        -- `xsi_types` of every declaration
+  elems : List (Con × Decl)                  -- additions to `identity.elements`
+  sel : List (Con × Decl)                    -- additions to `declaration.selected_by`
+  memo : List (Nat × Nat)                    -- lru cache entries / cached properties
+  scratch : List Nat                         -- clearable fields of the scratch context, as last left
   deriving Repr, Inhabited, DecidableEq
 
-def Res.init : Res := ⟨[], [], [], []⟩
+def Res.init : Res := ⟨[], [], [], [], []⟩
 
-/-- the part of a call that touches the residue, in execution order -/
+/-- `context.identities`: (constraint, `counter.enabled`) in insertion order -/
+abbrev Ctx := List (Con × Bool)
+
+/-- elements.py:641-645 for one identity -/
+def Ctx.reset (ctx : Ctx) (c : Con) : Ctx :=
+  if ctx.any (·.1 == c) then ctx.map fun p => if p.1 == c then (c, true) else p
+  else ctx ++ [(c, true)]
+
+def Ctx.enter (ctx : Ctx) (ids : List Con) : Ctx := ids.foldl Ctx.reset ctx
+
+def Ctx.disable (ctx : Ctx) (c : Con) : Ctx := ctx.map fun p => if p.1 == c then (c, false) else p
+
+/-- elements.py:875-886 for one identity (`refer` = the referenced key of a keyref, eager runs only) -/
+def Ctx.leave1 (ctx : Ctx) (cr : Con × Option Con) : Ctx :=
+  let ctx1 := ctx.disable cr.1
+  match cr.2 with
+  | some k => if ctx1.any (·.1 == k) then ctx1 else ctx1 ++ [(k, false)]
+  | none => ctx1
+
+def Ctx.leave (ctx : Ctx) (ids : List (Con × Option Con)) : Ctx := ids.foldl Ctx.leave1 ctx
+
+/-- one write on the schema object -/
+inductive Write where
+  | elem (c : Con) (d : Decl)                -- `if e not in self.elements: self.elements[e] = [...]`
+  | sel (c : Con) (d : Decl)                 -- `e.selected_by.add(self)`
+  | pair (d : Decl) (t : TyId) (c : Con)     -- `self.xsi_types.add((xsd_type, counter.identity))`
+  | type (d : Decl) (t : TyId)               -- `if xsd_type not in self.xsi_types: self.xsi_types.add(xsd_type)`
+  deriving Repr, Inhabited, DecidableEq
+
+def ins {α} [BEq α] (x : α) (l : List α) : List α := if l.contains x then l else x :: l
+
+def Res.apply (r : Res) : Write → Res
+  | .elem c d => { r with elems := ins (c, d) r.elems }
+  | .sel c d => { r with sel := ins (c, d) r.sel }
+  | .pair d t c => { r with xsi := ins (.pair d t c) r.xsi }
+  | .type d t => { r with xsi := ins (.type d t) r.xsi }
+
+def applyWrites (r : Res) (ws : List Write) : Res := ws.foldl Res.apply r
+
+/-- identities.py:219-226: the writes of `update_elements(XPathElement(d, t))` on constraint `c` -/
+def updateWrites (sch : Sch) (c : Con) (d : Decl) (t : TyId) : List Write :=
+  (sch.widen c d t).flatMap fun d' => [.elem c d', .sel c d']
+
+/-- elements.py:684-694: the writes of the loop over the counters of the context, in order, from state `r` -/
+def xsiLoop (sch : Sch) (d : Decl) (t : TyId) : Res → Ctx → List Write
+  | _, [] => []
+  | r, (c, en) :: cs =>
+    if !en || r.xsi.contains (.pair d t c) then xsiLoop sch d t r cs
+    else
+      let ws := updateWrites sch c d t ++ [.pair d t c]
+      ws ++ xsiLoop sch d t (applyWrites r ws) cs
+
+/-- elements.py:682-697 -/
+def xsiWrites (sch : Sch) (r : Res) (ctx : Ctx) (d : Decl) (t : TyId) : List Write :=
+  (if sch.isComplex t then xsiLoop sch d t r ctx else []) ++ [.type d t]
+
+/-- the same block as it was BEFORE 962be1e (kept for the counter-example of finding C10-F1):
+    everything gated by `xsd_type not in self.xsi_types` -/
+def xsiWritesOld (sch : Sch) (r : Res) (ctx : Ctx) (d : Decl) (t : TyId) : List Write :=
+  if r.xsi.contains (.type d t) then []
+  else (if sch.isComplex t then
+          (ctx.filter (·.2)).flatMap fun p => updateWrites sch p.1 d t
+        else []) ++ [.type d t]
+
+/-- which algorithm -/
+inductive Mode where
+  | old          -- the pinned code: widening gated by the type alone (finding C10-F1, fixed by 962be1e)
+  | current      -- the code as it is
+  | ungated      -- proposed repair of C10-F2: collection no longer gated by `selected_by`
+  deriving Repr, Inhabited, DecidableEq
+
+/-- the part of a call that touches the residue or the counters, in execution order -/
 inductive Step where
-  /-- an element of declaration `d` with a usable `xsi:type = t`, met while the counters of `en` are enabled -/
-  | xsiType (d : Decl) (t : TyId) (en : List Con)
-  /-- an element of declaration `d` finished inside an open scope of constraint `c`:
-      its fields are collected only if `d` is bound to `c` -/
-  | collect (d : Decl) (c : Con)
+  /-- an element whose declaration carries the identity constraints `ids` starts -/
+  | enter (ids : List Con)
+  /-- the element of declaration `d` has a usable `xsi:type = t`; `budget = some k`: the call was aborted
+      (KeyboardInterrupt, TypeError in strict mode) after `k` writes of the block -/
+  | xsiType (d : Decl) (t : TyId) (budget : Option Nat)
+  /-- the element of declaration `d` is finished: field collection -/
+  | collect (d : Decl)
+  /-- the element carrying `ids` ends (`refer` of keyrefs given for eager runs) -/
+  | leave (ids : List (Con × Option Con))
+  /-- lazy runs rebuild the counters outside `raw_decode` (schemas.py:1336-1362): the counters as found -/
+  | setCtx (ctx : Ctx)
   /-- a memoised method called with key `k` -/
   | memoCall (k : Nat)
   /-- `text_decode(text)` without a context: the scratch context is cleared, used, left dirty -/
@@ -53,44 +158,77 @@ inductive Step where
 
 /-- what the call sees -/
 inductive Obs where
-  | collected (b : Bool)
+  /-- at the end of an element: the counters, and the constraints for which fields are collected -/
+  | collected (ctx : Ctx) (gate : List Con)
   | memo (v : Nat)
   | scratch (seen : List Nat)
   deriving Repr, Inhabited, DecidableEq
 
-def isBound (sch : Sch) (r : Res) (c : Con) (d : Decl) : Bool :=
-  (sch.base c).contains d || r.bound.contains (c, d)
+def isSel (sch : Sch) (r : Res) (c : Con) (d : Decl) : Bool :=
+  sch.base.contains (c, d) || r.sel.contains (c, d)
 
-def addBound (sch : Sch) (d : Decl) (t : TyId) (b : List (Con × Decl)) (c : Con) : List (Con × Decl) :=
-  (sch.widen c d t).map (fun d' => (c, d')) ++ b
+def gate (sch : Sch) (m : Mode) (r : Res) (ctx : Ctx) (d : Decl) : List Con :=
+  (ctx.filter fun p => p.2 && (match m with | .ungated => true | _ => isSel sch r p.1 d)).map (·.1)
 
-/-- one step.  `gated = true` is the code as it is (the widening runs only the first time the pair
-    (declaration, type) is seen by the schema object); `gated = false` is the repaired algorithm
-    (the idempotent widening runs for the enabled counters every time). -/
-def step (sch : Sch) (gated : Bool) (r : Res) : Step → Res × Option Obs
-  | .xsiType d t en =>
-    let seen := r.xsi.contains (d, t)
-    if gated && seen then (r, none)
-    else
-      let b := if sch.complex t then en.foldl (addBound sch d t) r.bound else r.bound
-      ({ r with bound := b, xsi := if seen then r.xsi else (d, t) :: r.xsi }, none)
-  | .collect d c => (r, some (.collected (isBound sch r c d)))
+def budgeted (ws : List Write) : Option Nat → List Write
+  | none => ws
+  | some k => ws.take k
+
+/-- the writes of the xsi:type block for each algorithm -/
+def stepWrites (sch : Sch) (m : Mode) (r : Res) (ctx : Ctx) (d : Decl) (t : TyId) : List Write :=
+  match m with
+  | .old => xsiWritesOld sch r ctx d t
+  | _ => xsiWrites sch r ctx d t
+
+/-- one step -/
+def step (sch : Sch) (m : Mode) (s : Res × Ctx) : Step → (Res × Ctx) × Option Obs
+  | .enter ids => ((s.1, s.2.enter ids), none)
+  | .xsiType d t b =>
+    ((applyWrites s.1 (budgeted (stepWrites sch m s.1 s.2 d t) b), s.2), none)
+  | .collect d => (s, some (.collected s.2 (gate sch m s.1 s.2 d)))
+  | .leave ids => ((s.1, s.2.leave ids), none)
+  | .setCtx ctx => ((s.1, ctx), none)
   | .memoCall k =>
-    match r.memo.lookup k with
-    | some v => (r, some (.memo v))
-    | none => ({ r with memo := (k, sch.pure k) :: r.memo }, some (.memo (sch.pure k)))
-  | .scratchUse dirt => ({ r with scratch := dirt }, some (.scratch []))
+    match s.1.memo.lookup k with
+    | some v => (s, some (.memo v))
+    | none => (({ s.1 with memo := (k, sch.pure k) :: s.1.memo }, s.2), some (.memo (sch.pure k)))
+  | .scratchUse dirt => (({ s.1 with scratch := dirt }, s.2), some (.scratch []))
 
-/-- a call = the steps of the (possibly aborted) walk over one document -/
-def call (sch : Sch) (gated : Bool) : Res → List Step → Res × List Obs
-  | r, [] => (r, [])
-  | r, s :: ss =>
-    let (r1, o) := step sch gated r s
-    let (r2, os) := call sch gated r1 ss
-    (r2, o.toList ++ os)
+/-- the steps of the (possibly aborted) walk over one document, from a given state -/
+def run (sch : Sch) (m : Mode) : Res × Ctx → List Step → (Res × Ctx) × List Obs
+  | s, [] => (s, [])
+  | s, x :: xs =>
+    let (s1, o) := step sch m s x
+    let (s2, os) := run sch m s1 xs
+    (s2, o.toList ++ os)
+
+/-- a call: the counters start empty (a new context per call); the residue is what the schema holds -/
+def call (sch : Sch) (m : Mode) (r : Res) (doc : List Step) : Res × List Obs :=
+  let (s, os) := run sch m (r, []) doc
+  (s.1, os)
 
 /-- the residue after a history of calls -/
-def after (sch : Sch) (gated : Bool) (hist : List (List Step)) : Res :=
-  hist.foldl (fun r doc => (call sch gated r doc).1) Res.init
+def after (sch : Sch) (m : Mode) (hist : List (List Step)) : Res :=
+  hist.foldl (fun r doc => (call sch m r doc).1) Res.init
+
+/-- `d` can be bound to `c` by some xsi:type widening (decidable: the tables are finite) -/
+def widenableB (sch : Sch) (c : Con) (d : Decl) : Bool :=
+  sch.wtab.any fun e => e.1.1 == c && sch.isComplex e.1.2.2 && e.2.contains d
+
+/-- every xsi block of the document ran to its end -/
+def complete : List Step → Bool
+  | [] => true
+  | .xsiType _ _ (some _) :: _ => false
+  | _ :: xs => complete xs
+
+/-- the documents on which the code as it is cannot be influenced by a history: whenever an element
+    ends while a constraint `c` is enabled and the element's declaration is reachable through SOME
+    xsi:type widening of `c`, the run of a fresh schema has bound it already -/
+def selfSufficient (sch : Sch) : Res × Ctx → List Step → Bool
+  | _, [] => true
+  | s, x :: xs =>
+    (match x with
+      | .collect d => s.2.all fun p => !p.2 || !widenableB sch p.1 d || isSel sch s.1 p.1 d
+      | _ => true) && selfSufficient sch (step sch .current s x).1 xs
 
 end XsVerif.History
